@@ -42,11 +42,14 @@ func Convert(src interface{}, t reflect.Type) (interface{}, error) {
 			return t2.Indirect(p), nil
 		}
 	}
-	data, err := Marshal(src)
+	// in reference mode: src may come from the wire and contain itself through
+	// a pointer, and simple mode would follow the cycle until the stack overflows
+	formatter := Formatter{Simple: false}
+	data, err := formatter.Marshal(src)
 	if err != nil {
 		return nil, err
 	}
-	if err := Unmarshal(data, p); err != nil {
+	if err := formatter.Unmarshal(data, p); err != nil {
 		return nil, err
 	}
 	return t2.Indirect(p), nil
